@@ -199,9 +199,45 @@ def check(ctx):
     # ---------------------------------------------------------------- R3 multi-line annotations accumulate
     r3 = ctx.rule('R3', 'annotations continued on a following line extend (never replace) those already parsed', floor=4)
     continuation_rule(ctx, r3)
+    # the annotation tokenizer looks at the field text character by character only: whole-string, position-sensitive tests on the raw text
+    # (startswith, indexing, strip comparisons) would make the result depend on how a continuation line is indented
+    PA = gsa.summarise(ctx, 'annotationparser', 'GtkDocCommentBlockParser._parse_annotations', inline_only=())
+    fparam = PA.P(4) if len(PA.params) > 4 else 'fields'
+    if fparam not in PA.params:
+        raise AnalysisError('_parse_annotations: `fields` parameter not found (%s)' % PA.params)
+    POSN = re.compile(r'(?<![\w.])%s(\.|\[)' % re.escape(fparam))
+    rets = [e for e in gsa.find(PA, 'return')]
+    if not rets:
+        raise AnalysisError('_parse_annotations: no return effects')
+    for e in rets:
+        bad = sorted(a_ for a_ in gsa.atoms(e.cond) if POSN.search(a_) and not a_.startswith('@iter:'))
+        r3.check(not bad, 'tokenizer result at line %d decided character by character' % e.line, rel, e.line,
+                 '_parse_annotations returns %s depending on %s: a continuation line is handed over with its indentation, so annotations continued on an indented line '
+                 'are no longer recognised and become description text' % (e.value[:60], bad), detail=bad)
+
+    # the colon after an identifier / parameter / tag name is optional wherever the grammar has one: every pattern with a `delimiter`
+    # group accepts both the empty string and ":" for it (sibling agreement over all line patterns)
+    from . import c11
+    import re._parser as sre
+    for rname, (pat, flags, groups, ln) in sorted(c11.regex_table(py, m).items()):
+        if 'delimiter' not in groups:
+            continue
+        tree = sre.parse(pat, flags)
+        gid = tree.state.groupdict['delimiter']
+        sub = [av[3] for op, av in _walk_sre(tree) if op == sre.SUBPATTERN and av[0] == gid]
+        ok = False
+        if sub:
+            lo, hi = sub[0].getwidth()
+            lits = set(av for op, av in _walk_sre(sub[0]) if op == sre.LITERAL)
+            ok = lo == 0 and hi == 1 and lits == {ord(':')}
+        r3.check(ok, '%s: delimiter is an optional colon' % rname, rel, ln,
+                 'the `delimiter` group of %s is `%s`: the colon after the name is optional in the documented grammar (and in the sibling patterns), a line without it is no longer '
+                 'recognised' % (rname, re.search(r'\(\?P<delimiter>([^)]*)\)', pat).group(1) if re.search(r'\(\?P<delimiter>([^)]*)\)', pat) else '?'))
 
     # ---------------------------------------------------------------- R2 vocabulary tables
     r2 = ctx.rule('R2', 'vocabulary tables consistent with each other, with TAG_RE and with the ast constants', floor=12)
+    from . import c11
+    c11.validator_rule(ctx, r2)
     G = lambda n: py.fold_name(m, n)
     gi, dep, allann = G('GI_ANNS'), G('DEPRECATED_GI_ANNS'), G('ALL_ANNOTATIONS')
     r2.check(sorted(gi + dep) == sorted(allann) and len(set(allann)) == len(allann), 'ALL_ANNOTATIONS = GI_ANNS + deprecated, no duplicates', rel, 1,
@@ -244,3 +280,26 @@ def check(ctx):
              'direction annotations = ast.PARAM_DIRECTION_*', rel, 1, 'direction names differ')
     r2.check(sorted(G('ARRAY_OPTIONS')) == ['fixed-size', 'length', 'zero-terminated'] and sorted(G('OUT_OPTIONS')) == ['callee-allocates', 'caller-allocates']
              and sorted(G('NOT_OPTIONS')) == ['nullable', 'optional'], 'array/out/not option names as documented', rel, 1, 'option lists changed')
+
+
+def _walk_sre(tree):
+    """(op, av) items of an sre parse tree, nested ones included"""
+    import re._parser as sre
+    for op, av in tree:
+        yield op, av
+        if op == sre.SUBPATTERN:
+            for x in _walk_sre(av[3]):
+                yield x
+        elif op in (sre.MAX_REPEAT, sre.MIN_REPEAT) or str(op) == 'POSSESSIVE_REPEAT':
+            for x in _walk_sre(av[2]):
+                yield x
+        elif op == sre.BRANCH:
+            for alt in av[1]:
+                for x in _walk_sre(alt):
+                    yield x
+        elif op in (sre.ASSERT, sre.ASSERT_NOT):
+            for x in _walk_sre(av[1]):
+                yield x
+        elif str(op) == 'ATOMIC_GROUP':
+            for x in _walk_sre(av):
+                yield x
